@@ -26,7 +26,7 @@ def peak_wave_direction(dset):
         dset = dset.sum(attrs.FREQNAME)
 
     # Ensure single chunk along input core dimensions
-    dset = dset.chunk({attrs.DIRNAME: None})
+    dset = dset.chunk({attrs.DIRNAME: -1})
 
     # Peak
     ipeak = dset.argmax(dim=attrs.DIRNAME)
@@ -73,7 +73,7 @@ def mean_direction_at_peak_wave_period(dset):
         raise ValueError("Cannot calculate dp from frequency spectra.")
 
     # Ensure single chunk along input core dimensions
-    dset = dset.chunk({attrs.FREQNAME: None})
+    dset = dset.chunk({attrs.FREQNAME: -1})
 
     # Directional moments and peaks
     msin, mcos = dset.spec.momd(1)
@@ -118,7 +118,7 @@ def alpha(dset, smooth=True):
     fp = 1 / peak_wave_period(dset, smooth=smooth)
 
     # Ensure single chunk along input core dimensions
-    dset = dset.chunk({attrs.FREQNAME: None})
+    dset = dset.chunk({attrs.FREQNAME: -1})
 
     # Apply function over the full dataset
     darr = xr.apply_ufunc(
@@ -162,7 +162,7 @@ def peak_wave_period(dset, smooth=True):
         func = npstats.tp
 
     # Ensure single chunk along input core dimensions
-    dset = dset.chunk({attrs.FREQNAME: None})
+    dset = dset.chunk({attrs.FREQNAME: -1})
 
     # Frequency Peaks
     ipeak = dset.spec._peak(dset)
@@ -207,7 +207,7 @@ def peak_directional_spread(dset, mom=1):
         raise ValueError("Cannot calculate dpspr from frequency spectra.")
 
     # Ensure single chunk along input core dimensions
-    dset = dset.chunk({attrs.FREQNAME: None})
+    dset = dset.chunk({attrs.FREQNAME: -1})
 
     # Frequency dependant directional spread and frequency peaks
     fdspr = dset.spec.fdspr(mom=mom)
